@@ -260,6 +260,14 @@ def run(ck: Check, prog: Program) -> None:
     _meta_not_lazy(ck, prog)
     _gen_total(ck, prog)
     _name_source(ck, prog)
+    from .c16b import reference_key, schema_templates
+    schema_templates(ck, prog)
+    reference_key(ck, prog)
+    from .totality import encoder_default
+    encoder_default(ck, prog, 'pjrpc.server.specs.JSONEncoder', ['enum.Enum'],
+                    why='the specification dataclasses accept enumeration members (in examples, in: / type: fields); the document is '
+                        'encoded with this encoder by every integration, and an Enum member the encoder does not unwrap makes '
+                        'json.dumps raise TypeError')
 
 
 EXTRACTORS_PKG = 'pjrpc.server.specs.extractors'
@@ -1087,6 +1095,13 @@ def _dict_keys(v: ast.expr, m: FuncInfo) -> Optional[Set[str]]:
             return _dict_keys(init, m)
         return None
     return None
+
+
+def TOTAL_SCOPE(prog: Program) -> List[str]:
+    """The document generators live in the whole specs package (annotate decorators, specification dataclasses, extractors, the
+    encoder); the integrations' spec handlers are where the endpoint path the document is generated for comes from."""
+    return [q for q, f in prog.funcs.items() if q.startswith('pjrpc.server.specs.') or
+            q.startswith('pjrpc.server.integration.') and 'spec' in f.name.lower()]
 
 
 MUTANTS = [
